@@ -550,6 +550,8 @@ def valid_worker(case: Dict[str, Any]) -> CaseResult:
         elif label.startswith("names-set-"):
             from ._clientworld import NAME_SETS
             cfg.update(NAME_SETS[int(label.rsplit("-", 1)[1])])
+            if "target_package_path" in cfg:
+                (root / cfg["target_package_path"]).mkdir(parents=True, exist_ok=True)
         elif label.startswith("package-named-"):
             # a package and the modules inside it do not share a namespace
             cfg["target_package_name"] = label[len("package-named-"):]
